@@ -219,11 +219,16 @@ func (p *c01) Cases(tier string, emit func(interface{})) {
 
 // ---------------------------------------------------------------- refactorings
 
-var c01RefNames = []string{"group-module-before", "group-module-after", "group-sibling", "group-ancestor", "group-nested", "group-submodule", "group-imported", "refine", "augment-module-last", "augment-module-last2", "augment-uses-last", "submodule-top", "uses-when-true", "uses-if-feature-on", "twice-with-refines"}
+var c01RefNames = []string{"group-module-before", "group-module-after", "group-sibling", "group-ancestor", "group-nested", "group-submodule", "group-imported", "refine", "augment-module-last", "augment-module-last2", "augment-uses-last", "submodule-top", "uses-when-true", "uses-if-feature-on", "twice-with-refines",
+	"shadow-local-before", "shadow-local-after", "shadow-imported-before", "shadow-imported-after"}
 
 type modset struct {
 	main string
 	mods map[string]string
+	// inlineExtra: fixed top-level text the refactoring adds besides the forest (position: before/after
+	// the forest); the inline form it is compared with gets the expanded equivalent in the same place.
+	inlineExtra string
+	extraAfter  bool
 }
 
 const c01Hdr = `module nf { yang-version 1.1; namespace "urn:nf"; prefix nf; `
@@ -330,6 +335,39 @@ func applyRef(nf []*snode, name string, p npath) (ms modset, ok bool) {
 		pc := nodeAt(c, p[:len(p)-1])
 		pc.Props = append(pc.Props, "grouping g { "+body+"}")
 		return modset{main: front + renderAll(c) + "}"}, true
+	case "shadow-local-before", "shadow-local-after":
+		// two groupings of the same name in different scopes: X's children come from a grouping g
+		// declared next to X, while a module-level grouping g (other content) is used at the top.
+		if !hasKids || len(p) < 2 {
+			return ms, false
+		}
+		if nodeAt(nf, p[:len(p)-1]).Kind == "choice" {
+			return ms, false
+		}
+		c, body := extract("uses g;")
+		pc := nodeAt(c, p[:len(p)-1])
+		pc.Props = append(pc.Props, "grouping g { "+body+"}")
+		extra := "grouping g { leaf shadow { type string; } } container zsh { uses g; } "
+		inl := "container zsh { leaf shadow { type string; } } "
+		if name == "shadow-local-after" {
+			return modset{main: front + renderAll(c) + extra + "}", inlineExtra: inl, extraAfter: true}, true
+		}
+		return modset{main: front + extra + renderAll(c) + "}", inlineExtra: inl}, true
+	case "shadow-imported-before", "shadow-imported-after":
+		// the imported grouping g uses its own module's grouping h; the importing module has a
+		// different grouping h of its own and uses it too.
+		if !hasKids || strings.Contains(renderAll(x.Kids), "when ") {
+			return ms, false
+		}
+		c, body := extract("uses i:g;")
+		extra := "grouping h { leaf shadow { type string; } } container zsh { uses h; } "
+		inl := "container zsh { leaf shadow { type string; } } "
+		mods := map[string]string{"nfimp": `module nfimp { namespace "urn:nfimp"; prefix nfimp; revision 0; grouping g { uses h; } grouping h { ` + body + "} }"}
+		hdr := c01Hdr + "import nfimp { prefix i; } revision 0; feature fon; leaf x { type string; } "
+		if name == "shadow-imported-after" {
+			return modset{main: hdr + renderAll(c) + extra + "}", mods: mods, inlineExtra: inl, extraAfter: true}, true
+		}
+		return modset{main: hdr + extra + renderAll(c) + "}", mods: mods, inlineExtra: inl}, true
 	case "group-ancestor":
 		if !hasKids || len(p) < 3 {
 			return ms, false
@@ -551,6 +589,17 @@ func (p *c01) Run(raw json.RawMessage) eng.Result {
 					continue
 				}
 				w, g := want, got
+				if ms.inlineExtra != "" {
+					inl := modset{main: c01Hdr + "revision 0; feature fon; leaf x { type string; } " + ms.inlineExtra + renderAll(nf) + "}"}
+					if ms.extraAfter {
+						inl = modset{main: c01Hdr + "revision 0; feature fon; leaf x { type string; } " + renderAll(nf) + ms.inlineExtra + "}"}
+					}
+					w2, err, fr, msg := c01Dump(inl)
+					if err != nil || fr != "" {
+						panic("harness: inline form with extra does not load: " + fmt.Sprint(err, fr, msg) + " :: " + inl.main)
+					}
+					w = w2
+				}
 				if rn == "submodule-top" {
 					w, g = topInsensitive(want), topInsensitive(got)
 				}
